@@ -417,7 +417,11 @@ fn boundary(c: &Case, base: &[Tx], r0: &TaxReport, tk: &str, obs: &mut Obs) -> V
     }
     let mut l2 = base.to_vec();
     l2.push(Tx { date, ticker: tk.to_string(), op: Op::CapRet { q: Decimal::from(10), total: Money::gbp(net + fees), fees: Money::gbp(fees) } });
-    let exceeds = Rat::from_dec(net) > remaining;
+    // numeric comparison rule: within 1e-9 of the boundary either verdict is accepted (the tool's
+    // own basis is a rounded decimal)
+    let tol = tool::tol_money();
+    let exceeds = Rat::from_dec(net) > &remaining + &tol;
+    let undecided = !exceeds && Rat::from_dec(net) > &remaining - &tol;
     let near = {
         let r = Rat::from_dec(net);
         let lo = &remaining * Rat::from_frac(99, 100);
@@ -468,7 +472,7 @@ fn boundary(c: &Case, base: &[Tx], r0: &TaxReport, tk: &str, obs: &mut Obs) -> V
             if !matches!(e, CgtError::InvalidTransaction(_)) || !msg.contains("S122") {
                 return Verdict::fail(format!("capital return refused with an error not citing S122: {msg}"));
             }
-            if !exceeds && pool_only {
+            if !exceeds && !undecided && pool_only {
                 let thr = fifo_full_lot_cost(base, tk);
                 if Rat::from_dec(net) > thr {
                     return f11();
